@@ -37,7 +37,7 @@ CLAIMS = {
     ),
     'C05': (
         'For each variant and each candidate length, ALL byte strings of that length (symbolic, including non-UTF-8) and all three prefix modes: the result is Ok exactly when the reference well-formedness predicate holds, the value equals the reference decoding, a wrong length always yields InvalidStringLength, and any other error is one that applies to the input. No panic is reachable (Kani checks every index, slice and arithmetic operation). Run in all four decode-table configurations.',
-        "Trusted: Kani's MIR->goto translation, CBMC 6.11 + CaDiCaL, the reference model in harness/refmodel.rs (independent table copies), the stubs listed per harness in the evidence (each a model of an unsupported intrinsic, a proved contract, or a caller-supplied trait impl). Bounds: lengths are concrete per harness instance: the two accepted lengths of each variant and their neighbours (0, L-3..L+1 on Short); other lengths are rejected by the length gate before any data is read (shown for all slice lengths on the binary path by c06_len_*). hex-simd body decoding (default features) is outside.",
+        "Trusted: Kani's MIR->goto translation, CBMC 6.11 + CaDiCaL, the reference model in harness/refmodel.rs (independent table copies), the stubs listed per harness in the evidence (each a model of an unsupported intrinsic, a proved contract, or a caller-supplied trait impl). Bounds: the full specification (value, applicable error) is checked at concrete lengths per harness instance: the two accepted lengths of each variant and their neighbours; the length clause (InvalidStringLength iff the length is wrong for the mode, no panic) is checked for EVERY length 0..=L+4 at once with a symbolic slice length (Short in quick, Normal in thorough). hex-simd body decoding (default features) is outside.",
         'Kani/CBMC bounded model checking (SAT) of the compiled MIR with symbolic inputs; lemma decomposition; native replay of counterexamples',
         'DESIGN.md section 5, C05',
     ),
